@@ -45,7 +45,8 @@ FAMILIES = {
     "topics": ([("q1", ["ta"], "NORMAL"), ("q1", ["tb"], "NORMAL")], ["ta", "tb"], {}),
     "2q": ([("q1", None, "NORMAL"), ("q2", None, "NORMAL"), ("q2", None, "DEAD")], ["ta"], {}),
     # queue_flush / queue_declare / queue_delete between the other calls: two queues, one of them flushed
-    "flush": ([("q1", None, "NORMAL"), ("q2", None, "NORMAL"), ("q2", None, "DEAD")], ["ta"],
+    # (queue names where one is a prefix of the other: the Redis broker finds a queue's keys by pattern)
+    "flush": ([("q1", None, "NORMAL"), ("q10", None, "NORMAL"), ("q10", None, "DEAD")], ["ta"],
               {"weights": {"flush": 1, "declare": 1, "delete": 1, "enq": 6}, "max_ids": 12, "nops": 36}),
     "fifo1": ([("q1", ["ta", "tb"], "NORMAL")], ["ta", "tb", "tc"], {"fifo_only": True, "max_ids": 14, "nops": 45,
               "weights": {"enq": 6, "consume": 5, "finish": 0, "sleep": 1}}),
